@@ -103,7 +103,7 @@ def _blk_last(ver, v, p):
     return ((v >> h) << h) + (1 << h) - 1
 
 
-_NETKINDS = ('N', 'SN', 'SM', 'SH', 'SP', 'SZ', 'SW')
+_NETKINDS = ('N', 'SN', 'SM', 'SH', 'SP', 'SZ', 'SW', 'SPB', 'SZB')
 _BADKINDS = ('I', 'SX')
 
 
@@ -166,6 +166,12 @@ def _text(it):
         return '%s/%d' % ('.'.join('%d' % o for o in octs), p)
     if k == 'SZ':
         return '%s/%d' % ('.'.join('%03d' % o for o in octs), p)
+    if k == 'SPB':          # a bare partial address, no '/': IPNetwork('10.1') is 10.1.0.0/32
+        while len(octs) > 1 and octs[-1] == 0:
+            octs.pop()
+        return '.'.join('%d' % o for o in octs)
+    if k == 'SZB':          # a bare address with zero-padded octets, no '/'
+        return '.'.join('%03d' % o for o in octs)
     raise ValueError(it)
 
 
@@ -254,6 +260,12 @@ _BAD_TEXTS = ('', 'bad', '1.2.3.4/33', '1.2.3.4/', '1.2.3.256', '1.2.3.4/255.0.2
 def _respell(rng, it):
     """another spelling of the same network (raw cases)"""
     k, ver = it[0], it[1]
+    if ver == 4 and (k in ('A', 'SA') or (k in ('N', 'SN') and it[3] == 32)) and rng.random() < 0.3:
+        # bare texts (no '/') that IPNetwork() and IPAddress() read differently: partial addresses are padded on the
+        # right by the one and filled in the middle by the other; zero-padded octets are decimal for the one and octal
+        # for the other.  cidr_merge documents IPNetwork() semantics.
+        v = it[2]
+        return ('SPB' if (v & 255 == 0 and rng.random() < 0.7) else 'SZB', 4, v, 32)
     if k not in ('N', 'SN') or rng.random() < (0.65 if k == 'N' else 0.4):
         return it
     v, p = it[2], it[3]
